@@ -28,6 +28,8 @@ PERTURB = [
     ('locale', {'LC_ALL': 'C.UTF-8', 'LC_NUMERIC': 'de_DE.UTF-8', 'LANG': 'fr_FR.UTF-8'}, []),
     ('tz', {'TZ': 'Pacific/Kiritimati'}, []),
     ('malloc-perturb', {'MALLOC_PERTURB_': '165', 'MALLOC_ARENA_MAX': '1'}, []),
+    # the output files already exist and are longer than what this run writes: nothing of the old content may survive
+    ('stale-outputs', {'__STALE__': '1'}, []),
 ]
 # legitimate environment settings that reverse the relative order of heap blocks: the recorded pointer-order finding
 POINTER = [('mmap-threshold', {'GLIBC_TUNABLES': 'glibc.malloc.mmap_threshold=32'}, []),
@@ -54,6 +56,8 @@ def main():
         text += '\nclass Ov%d {\n__published:\n  void f(int a);\n  void f(short a);\n  void f(unsigned char a);\n  void g(const Ov%d &a);\n  void g(double a);\n  void g(float a);\n};\n' % (i, i)
         # strings in every role (value, reference, pointer; parameter and result): remaps that are rejected or forced to void
         text = '#include <string>\n' + text + '\nclass Sx%d {\n__published:\n  std::string *gs();\n  std::string &gr();\n  const std::string &gc() const;\n  std::string gv(const std::string &a, std::string b, const std::string *c);\n  void sv(std::string *out);\n};\n' % i
+        # typedefs that name wrapped classes (global and nested): the back-ends describe them in comments and tables
+        text += '\nBEGIN_PUBLISH\ntypedef Ov%d OvAlias%d;\ntypedef Sx%d *SxPtr%d;\nEND_PUBLISH\nclass Td%d {\n__published:\n  typedef Ov%d Inner;\n  Inner *get();\n};\n' % (i, i, i, i, i, i)
         d = os.path.join(wd, 'c%d' % i)
         os.makedirs(d)
         open(os.path.join(d, 'h.h'), 'w').write(text)
@@ -65,6 +69,9 @@ def main():
         for k in ('SOURCE_DATE_EPOCH', 'GLIBC_TUNABLES', 'TZ', 'LC_ALL', 'LC_NUMERIC'):
             env.pop(k, None)
         env.update(env_extra)
+        if env.pop('__STALE__', None):
+            for f in ('o.cxx', 'o.in', 'o.txt', 'mod.cxx'):
+                open(os.path.join(d, tag, f), 'w').write('/* left over from an earlier, larger run */\n' * 20000)
         if epoch is not None:
             env['SOURCE_DATE_EPOCH'] = epoch
         pre = prefix if (prefix and have_setarch) else []
